@@ -59,6 +59,12 @@ impl Metadata {
         }
     }
 
+    /// identity of this state machine instance in the verif event log
+    #[cfg(feature = "verif")]
+    pub fn verif_state_ptr(&self) -> String {
+        format!("{:p}", Arc::as_ptr(&self.state))
+    }
+
     pub fn get_topic_state(&self, topic: &str) -> Option<TopicState> {
         let guard = self.state.read().ok()?;
         guard.topics.get(topic).cloned()
@@ -138,6 +144,11 @@ impl StateMachineTrait for Metadata {
                     segment_leaders: HashMap::new(),
                 };
                 topic.segment_leaders.insert(1, initial_leader);
+                #[cfg(feature = "verif")]
+                crate::verif_events::record(
+                    "applied_create",
+                    &format!("{:p}|{}|{}", Arc::as_ptr(&self.state), name, initial_leader),
+                );
                 state.topics.insert(name, topic);
                 Ok(Bytes::from_static(b"CREATED"))
             }
@@ -160,6 +171,18 @@ impl StateMachineTrait for Metadata {
                     topic_state
                         .segment_leaders
                         .insert(topic_state.current_segment, new_leader);
+                    #[cfg(feature = "verif")]
+                    crate::verif_events::record(
+                        "applied_rollover",
+                        &format!(
+                            "{:p}|{}|{}|{}|{}",
+                            Arc::as_ptr(&self.state),
+                            name,
+                            sealed_seg,
+                            new_leader,
+                            sealed_segment_entry_count
+                        ),
+                    );
                     return Ok(Bytes::from_static(b"ROLLED"));
                 }
                 Err("Topic not found".into())
